@@ -254,6 +254,12 @@ def run_wait(rng):
     pager = rng.choice(['mypager', 'less'])
     env = {'VERIF_PAGER_LOG': log, 'VERIF_PAGER_DELAY': delay, 'DELTA_PAGER': pager}
     sets = {'sub': ['wait']}
+    if rng.random() < 0.5:
+        # the pager stops reading early (closes its input) but is still running for a while: delta's writes fail with
+        # EPIPE, and it must still not return before the pager has finished
+        env['VERIF_PAGER_QUIT_AFTER'] = str(rng.choice([0, 1, 100, 5000]))
+        data = data * rng.choice([200, 1000])
+        sets = {'sub': ['wait:pager-stops-reading']}
     # observe delta's own exit, not the closing of the pipes the pager inherits: delta is started directly, its
     # stdout/stderr go to files, and the marker is looked at the moment wait() returns
     w = runner.workdir()
@@ -265,8 +271,11 @@ def run_wait(rng):
                              cwd=os.path.join(w, 'cwd'))
         try:
             p.stdin.write(data)
+        except (BrokenPipeError, OSError):
+            pass
+        try:
             p.stdin.close()
-        except BrokenPipeError:
+        except (BrokenPipeError, OSError):
             pass
         try:
             p.wait(timeout=20)
